@@ -2,6 +2,8 @@
    Proved: the counters equal the numbers of operations performed (both integrators, any policies,
    any history).  Refuted on the faithful model (and recorded as known findings): "Converged only
    if the whole interval was integrated" fails for time steps not above round_off.
+   Proved: the status returned is the one whose condition occurred (Rosenbrock: all five statuses; backward Euler:
+   Converged only once t < time_step has failed).
    Not yet a theorem (validated by the tie and the oracle): 0 <= final_time <= time_step, termination. *)
 From Coq Require Import QArith.
 From Model Require Import Base Rosenbrock BackwardEulerM IntegratorProofs RosScratchProofs NumInst.
@@ -67,3 +69,37 @@ Proof.
   - vm_compute. reflexivity.
 Qed.
 Print Assumptions C06_converged_without_progress_refuted.
+
+(* the status is truthful: whatever the policies, the history and the way the loops are left,
+     Converged                    - the loop guard failed: not (t - time_step + round_off <= 0) for the final time t
+                                    (the known findings of C06 are the cases where this guard is passed without a step)
+     ConvergenceExceededMaxSteps  - the step count had passed max_number_of_steps_
+     StepSizeTooSmall             - the current H was absorbed by t or not above round_off
+     NaNDetected / InfDetected    - an attempt of this run had a NaN / infinite error norm (and was not accepted)
+   and no other status is ever returned (Running, NotYetCalled, AcceptingUnconvergedIntegration: False). *)
+Theorem C06_rosenbrock_status_is_truthful :
+  forall (N : Num) ltb leb nabs isnan isinf is_zero absorbed pow_inv ten delta_min
+         (V M F : Type) vaxpy vzero mzero add_diag forcing negjac in_place factor_sep solve_sep factor_ip solve_ip nerr
+         (p : params N) fuel time_step (s : rstate V M F),
+    let r := ros_solve N ltb leb nabs isnan isinf is_zero absorbed pow_inv ten delta_min V M F vaxpy vzero mzero
+                       add_diag forcing negjac in_place factor_sep solve_sep factor_ip solve_ip nerr p fuel time_step s in
+    match r_state r with
+    | Converged => leb (nadd N (nsub N (r_final_time r) time_step) (p_round_off p)) (n0 N) = false
+    | ConvergenceExceededMaxSteps => (p_max_steps p < number_of_steps (r_stats r))%nat
+    | StepSizeTooSmall => exists H, absorbed (r_final_time r) H || leb H (p_round_off p) = true
+    | NaNDetected => exists H e y yn ye, In (EvAttempt H e false y yn ye) (r_trace r) /\ isnan e = true
+    | InfDetected => exists H e y yn ye, In (EvAttempt H e false y yn ye) (r_trace r) /\ isinf e = true
+    | OutOfFuel => True
+    | _ => False
+    end.
+Proof. exact ros_status_truthful. Qed.
+Print Assumptions C06_rosenbrock_status_is_truthful.
+
+Theorem C06_backward_euler_converged_means_interval_covered :
+  forall (N : Num) ltb is_zero (V M F : Type) vzero mzero add_diag forcing negjac in_place factor_sep solve_sep
+         factor_ip solve_ip vresid vclamp_add is_converged two (p : be_params N) fuel time_step (s : bstate V M F),
+    let r := be_solve N ltb is_zero V M F vzero mzero add_diag forcing negjac in_place factor_sep solve_sep factor_ip
+                      solve_ip vresid vclamp_add is_converged two p fuel time_step s in
+    br_state r = Converged -> ltb (br_final_time r) time_step = false.
+Proof. exact be_converged_means_interval_covered. Qed.
+Print Assumptions C06_backward_euler_converged_means_interval_covered.
